@@ -73,6 +73,13 @@ fn find_in_items(items: &[Item], self_ty: Option<&str>, name: &str, modpath: &[&
                     }
                 }
             }
+            // `outer_fn::nested_fn`: fn items declared inside the body of a free fn
+            if let Item::Fn(f) = it {
+                if f.sig.ident == first {
+                    let nested: Vec<Item> = f.block.stmts.iter().filter_map(|s| if let Stmt::Item(i) = s { Some(i.clone()) } else { None }).collect();
+                    if let Some(r) = find_in_items(&nested, self_ty, name, rest) { return Some(r); }
+                }
+            }
         }
         return None;
     }
@@ -457,6 +464,12 @@ fn main() {
                     Ok((_, f)) => {
                         let mut done = false;
                         for it in &f.items { if let Item::Const(c) = it { if c.ident == name.as_str() { let mut c = c.clone(); c.attrs.clear(); c.vis = parse_quote!(pub); o.push_str(&format!("// ---- const {} from {}\n{}\n", name, file, ts(&c))); done = true; } } }
+                        // associated const `Type::NAME` of an inherent impl, emitted as `impl Type { pub const NAME: T = E; }`
+                        if let Some((ty, cn)) = name.split_once("::") {
+                            for it in &f.items { if let Item::Impl(im) = it { if im.trait_.is_none() && squash(&ts(&im.self_ty)) == squash(ty) {
+                                for ii in &im.items { if let ImplItem::Const(c) = ii { if c.ident == cn && !done { let mut c = c.clone(); c.attrs.clear(); c.vis = parse_quote!(pub); o.push_str(&format!("// ---- const {} from {}\nimpl {} {{ {} }}\n", name, file, ty, ts(&c))); done = true; } } }
+                            } } }
+                        }
                         if !done { ctx.problems.push(format!("LOST-ANCHOR const {} in {}", name, file)); }
                     }
                     Err(e) => ctx.problems.push(e),
